@@ -1,6 +1,6 @@
 #!/bin/bash
 # tools/commit.sh "<message>" : rebuild, regenerate the manifest, run every quick check on the clean tree, commit only if all pass
-cd /verif/checker && GOWORK=off GOFLAGS=-mod=mod GOPROXY=off GOSUMDB=off GOTOOLCHAIN=local go build -o /verif/bin/vcheck ./cmd/vcheck || exit 1
+/verif/tools/build.sh || exit 1
 cd /verif && bin/vcheck -write-manifest >/dev/null || exit 1
 if [ -n "$(git -C /repo status --porcelain)" ]; then echo "REFUSED: /repo has uncommitted changes"; exit 1; fi
 out=$(tools/all.sh 2>&1); rc=$?
